@@ -13,6 +13,8 @@ CONSTANTS
   Steps <- MCSteps
   Algo = "lstsq"
   Garbage = 1000
+  Acts = {"clear"}
+  GivenSets <- NoGiven
   Record = FALSE
   Temps = {200, 1000}
 INVARIANT NormalEquations
